@@ -12,14 +12,38 @@ for name in sorted(os.listdir(SEEDED)):
     d = os.path.join(SEEDED, name)
     meta = json.load(open(os.path.join(d, 'meta.json')))
     prop = meta['property']
-    subprocess.run(['git', '-C', '/repo', 'checkout', '--', '.'])
-    r = subprocess.run(['git', '-C', '/repo', 'apply', os.path.join(d, 'patch.diff')], text=True, stdout=subprocess.PIPE, stderr=subprocess.STDOUT)
-    if r.returncode:
-        rows.append((name, prop, 'PATCH DOES NOT APPLY', '', '')); continue
-    try:
-        out = subprocess.run(['./check', '--all'], cwd='/verif', text=True, stdout=subprocess.PIPE, stderr=subprocess.STDOUT).stdout
-    finally:
+    base = meta.get('base')
+    if base:
+        # a seed that only exists on an earlier tree (a later fix: commit removed the code it changes): replay it on a scratch
+        # worktree of that commit, through VERIF_REPO, and compare with the same worktree without the patch
+        import shutil, tempfile
+        wt = tempfile.mkdtemp(prefix='seedbase-', dir='/tmp')
+        os.rmdir(wt)
+        env = dict(os.environ, VERIF_REPO=wt, VERIF_CACHE=wt + '-cache', VERIF_EVIDENCE=wt + '-ev')
+        try:
+            subprocess.run(['git', '-C', '/repo', 'worktree', 'add', '--detach', '-q', wt, base], check=True)
+            base_out = subprocess.run(['./check', prop], cwd='/verif', env=env, text=True, stdout=subprocess.PIPE, stderr=subprocess.STDOUT).stdout
+            r = subprocess.run(['git', '-C', wt, 'apply', os.path.join(d, 'patch.diff')], text=True, stdout=subprocess.PIPE, stderr=subprocess.STDOUT)
+            if r.returncode:
+                rows.append((name, prop, 'PATCH DOES NOT APPLY (base %s)' % base, '', '')); continue
+            out = subprocess.run(['./check', '--all'], cwd='/verif', env=env, text=True, stdout=subprocess.PIPE, stderr=subprocess.STDOUT).stdout
+            # violations the unpatched base already has (defects repaired since) are not credited to the seed
+            base_rules = {l.split('rule ')[1].split(' at ')[0] for l in base_out.splitlines() if l.startswith('    rule ')}
+            out = '\n'.join(l for l in out.splitlines() if not (l.startswith('    rule ') and l.split('rule ')[1].split(' at ')[0] in base_rules))
+        finally:
+            subprocess.run(['git', '-C', '/repo', 'worktree', 'remove', '--force', wt])
+            shutil.rmtree(wt + '-cache', ignore_errors=True); shutil.rmtree(wt + '-ev', ignore_errors=True)
+            subprocess.run(['git', '-C', '/repo', 'worktree', 'prune'])
+        name = name + ' [on base %s]' % base[:7]
+    else:
         subprocess.run(['git', '-C', '/repo', 'checkout', '--', '.'])
+        r = subprocess.run(['git', '-C', '/repo', 'apply', os.path.join(d, 'patch.diff')], text=True, stdout=subprocess.PIPE, stderr=subprocess.STDOUT)
+        if r.returncode:
+            rows.append((name, prop, 'PATCH DOES NOT APPLY', '', '')); continue
+        try:
+            out = subprocess.run(['./check', '--all'], cwd='/verif', text=True, stdout=subprocess.PIPE, stderr=subprocess.STDOUT).stdout
+        finally:
+            subprocess.run(['git', '-C', '/repo', 'checkout', '--', '.'])
     viol = {}
     cur = None
     for l in out.splitlines():
